@@ -59,26 +59,27 @@ def _mlp_clf(missing_label, classes, seed=0):
     return _clf(missing_label, classes, seed)
 
 
-def _reg(seed=0):
+def _reg(seed=0, missing_label=np.nan):
     from skactiveml.regressor import NICKernelRegressor
 
-    return NICKernelRegressor(random_state=seed, metric_dict={"gamma": 0.5})
+    return NICKernelRegressor(random_state=seed, metric_dict={"gamma": 0.5}, missing_label=missing_label)
 
 
-def _sk_reg(seed=0):
+def _sk_reg(seed=0, missing_label=np.nan):
     from sklearn.linear_model import LinearRegression
 
     from skactiveml.regressor import SklearnRegressor
 
-    return SklearnRegressor(LinearRegression(), random_state=seed)
+    return SklearnRegressor(LinearRegression(), random_state=seed, missing_label=missing_label)
 
 
-def _tree_reg(seed=0):
+def _tree_reg(seed=0, missing_label=np.nan):
     from sklearn.tree import DecisionTreeRegressor
 
     from skactiveml.regressor import SklearnRegressor
 
-    return SklearnRegressor(DecisionTreeRegressor(min_samples_leaf=1, random_state=seed), random_state=seed)
+    return SklearnRegressor(DecisionTreeRegressor(min_samples_leaf=1, random_state=seed), random_state=seed,
+                            missing_label=missing_label)
 
 
 def _ensemble(missing_label, classes, seed=0):
@@ -99,6 +100,9 @@ def _ensemble_list(missing_label, classes, seed=0):
                                    metric_dict={"gamma": g}) for g in (0.1, 1.0, 3.0)]
 
 
+REG = ("regression",)      # marker passed as `classes` when the missing label is meant for a regression model
+
+
 def model_kwargs(entry, missing_label, classes, seed=0, variant=0):
     """query keyword arguments carrying the model(s) an entry needs"""
     m = entry.model
@@ -111,9 +115,11 @@ def model_kwargs(entry, missing_label, classes, seed=0, variant=0):
     if m == "clf_logreg":
         return {"clf": _sk_clf(missing_label, classes, seed)}
     if m == "reg":
-        return {"reg": (_reg, _sk_reg)[variant % 2](seed) if entry.cls_name != "RegressionTreeBasedAL" else _tree_reg(seed)}
+        ml = np.nan if classes is not REG else missing_label      # (classification encodings do not apply to regressors)
+        return {"reg": (_reg, _sk_reg)[variant % 2](seed, ml) if entry.cls_name != "RegressionTreeBasedAL"
+                else _tree_reg(seed, ml)}
     if m == "reg_prob":
-        return {"reg": _reg(seed)}
+        return {"reg": _reg(seed, np.nan if classes is not REG else missing_label)}
     if m == "ensemble":
         return {"ensemble": (_ensemble_list, _ensemble)[variant % 2](missing_label, classes, seed)}
     if m == "fourds":
